@@ -24,11 +24,23 @@ What is proved, and how strongly.
   step with the literal windows and gates; they pin every number and comparison operator of the source.
 * `global_correct_two_points` — FULL strength, new: C04's theorem for a pair encoded from two different
   nearby positions (what a trajectory produces).
-* `sound_partial` — the "never a wrong position" clause, PARTIAL in the sense stated there.
+* `cache_invariant` — FULL strength, no kinematics: after any history every parity slot holds an earlier
+  report of the same address with its recorded time stamp, `pos` is what was attached to an earlier report of
+  that address stamped `timestamp`, the reference is the initial one or (callback only) an earlier attached fix.
+* `sound` — the "never a wrong position" clause as a theorem about WHOLE histories, by induction over the
+  history: `EncodesAll H → Kin upd reference H → every attached position is the lattice point of its own
+  report's true position`.  `Kin` is state-independent (true positions, kinds, addresses, RECORDED time stamps
+  only); `kin_of_deg` derives it from bounds in degrees between true positions (`KinDeg`).  What is NOT a
+  theorem: "≤ 700 kt, 10 s / 180 s windows, receiver within 40 NM, time stamps disordered only locally ⇒
+  `KinDeg`" (spherical kinematics: simulation only), and the conversion of the lattice point to "within 25 m".
+  `disorder_outside_kin`: outside `Kin` (time stamps exchanged across a long silence) a wrong position is
+  attached — by the real code as well.
+* `sound_step`, `sound_partial` — the one-step lemmas `sound` is built from (hypothesis on the decoder's state).
 * `surface_stale_witness` — the defect found (and repaired) in the surface branch, on the model of the code as
   it was; `source_gates_literal`, `gates_pinned` — the regenerated windows and gates are the documented ones.
 The `def`s of this file are statement vocabulary only (`entryOf`, `Truth`, `Encodes`, `SafeStep`, `Recovered`,
-the witness history and its metric).
+`History`, `EncodesAll`, `latticeOf`, `NearOf`, `PairOf`, `KinRel`, `Kin`, `NearDeg`, `KinRelDeg`, `KinDeg`,
+`Confined`, the witness and example histories and their metric).
 -/
 import Rs1090.Proofs.CprStateInv
 import Rs1090.Proofs.CprStateKin
@@ -40,7 +52,15 @@ open Rs1090 Rs1090.Model.Cpr Rs1090.Model.CprState Rs1090.Spec.Cpr Rs1090.Proofs
 /-- **Non-interference** (fixed receiver reference, `update_reference = None`).  For every history `h` —
     any number of aircraft, any interleaving, losses, duplicates, time stamps whatsoever —, every address `A`,
     every receiver reference and every distance function: the positions attached to the reports of `A` by
-    the batch decoder run on `h` are exactly the positions attached when the reports of `A` are fed alone. -/
+    the batch decoder run on `h` are exactly the positions attached when the reports of `A` are fed alone.
+
+    Which callers run in this regime (`update_reference = None`): the Python binding (`python/src/lib.rs`,
+    `decode_positions(&mut res, position, &None)`), the example `crates/rs1090/examples/flight.rs`, and jet1090
+    by DEFAULT (`crates/jet1090/src/main.rs`: `update_reference = None` unless `--update-position`).
+    NOT covered: decode1090 ALWAYS passes a closure (`crates/decode1090/src/main.rs`: `alt < 1000`), and so does
+    jet1090 with `--update-position` (`alt < 5000`); those runs are in the regime of `interference_with_update`
+    (the reference is shared state, by design).  `sound` below holds in BOTH regimes (its `Kin` then also asks
+    that every low-flagged airborne fix be near every later surface report). -/
 theorem noninterference (dist : Pos → Pos → Rat) (reference : Option Pos) (h : List Report) (A : Address) :
     outputsOf A h (decodePositions Gates.source dist none reference h)
       = decodePositions Gates.source dist none reference (own A h) :=
@@ -374,8 +394,10 @@ theorem sound_step (dist : Pos → Pos → Rat) (upd : Option (Report → Bool))
     simp only [stepEntry_other Gates.source dist upd _ _ r hk] at h
     cases h
 
-/- FULL STATEMENT of the first clause of the property (kept visible; NOT proved — what is missing is only
-   the kinematic step, see `sound_partial`):
+/- FULL STATEMENT of the first clause of the property in the property's own terms (kept visible; NOT proved
+   in this form.  `sound` further down IS the whole-history theorem with the kinematics replaced by the
+   state-independent hypothesis `Kin`; what is missing between the two is "≤ 700 kt ⇒ `Kin`" and "lattice
+   point ⇒ 25 m" only):
 
      `sound` : ∀ (flights : finite set of great-circle flights, ground speed ≤ 700 kt, airborne or on the
          surface with the receiver reference within 40 NM of every surface report, |lat| ≤ 87° there)
@@ -384,8 +406,9 @@ theorem sound_step (dist : Pos → Pos → Rat) (upd : Option (Report → Bool))
        ∀ k p, (decodePositions Gates.source haversine none reference h)[k]? = some (some p) →
          greatCircleDistance p (position of h[k]'s aircraft at h[k]'s encoding time) ≤ 25 m
 
-   Proved instead: `sound_partial` below (the same conclusion, as exact recovery of the report's lattice
-   point, under the explicit safe-box hypotheses that the kinematics would supply), the degrees-to-lattice
+   Proved instead: `sound_partial` below (ONE step: the same conclusion, as exact recovery of the report's
+   lattice point, under safe-box hypotheses on the decoder's STATE), `sound` (WHOLE histories, hypotheses on
+   the true positions and recorded time stamps only, by induction with `cache_invariant`), the degrees-to-lattice
    bounds of C04/C05 (`recovered_close_*`), and — on the model of the code AS FOUND — the negation of `sound`
    by a concrete history (`surface_stale_witness`); the repaired code passes that history. -/
 
@@ -399,7 +422,9 @@ theorem sound_step (dist : Pos → Pos → Rat) (upd : Option (Report → Bool))
     PARTIAL: the statement the property makes is about aircraft flying at ≤ 700 kt; that 700 kt together with
     the 10 s and 180 s windows (and a receiver within 40 NM, |lat| ≤ 87°) puts the true positions inside
     these boxes (3.6 km < 4.5 km; 65 km < half a zone ≥ 83 km) is spherical kinematics, which is NOT proved
-    here: it is established by the simulation of the harness only. -/
+    here: it is established by the simulation of the harness only.  ALSO PARTIAL in that `SafeStep` speaks about
+    the decoder's state after `pre` (a stored message, an earlier output): `sound` below removes that by
+    induction over the history. -/
 theorem sound_partial (dist : Pos → Pos → Rat) (upd : Option (Report → Bool)) (reference : Option Pos)
     (pre post : List Report) (r : Report) (t : Truth) (henc : Encodes r t)
     (hsafe : SafeStep (runState Gates.source dist upd (Cache.empty, reference) pre).1
@@ -705,6 +730,45 @@ theorem sound_deg (dist : Pos → Pos → Rat) (upd : Option (Report → Bool)) 
     Recovered x.1 x.2 p :=
   sound dist upd reference H henc (kin_of_deg upd reference H henc hkin) k x p hx h
 
+/-- all true positions of the history, and the receiver reference if any, lie within 1/50 ° of a point `c`
+    in both coordinates (aircraft taxiing, holding or hovering around an airport; 2.2 km × ≥ 0.04 km) -/
+def Confined (c : Pos) (reference : Option Pos) (H : History) : Prop :=
+  (∀ x ∈ H, |x.2.lat - c.lat| ≤ 1 / 50 ∧ |x.2.lon - c.lon| ≤ 1 / 50) ∧
+  ∀ rf, reference = some rf → |rf.lat - c.lat| ≤ 1 / 50 ∧ |rf.lon - c.lon| ≤ 1 / 50
+
+/-- **`KinDeg` (hence `Kin`) is satisfiable, for every callback and ALL recorded time stamps**: any history
+    confined to 1/50 ° around a point satisfies it (pairs are then ≤ 1/25 ° apart: inside the pair box
+    12/295 °, `59·58/25 ≤ 144`, and inside both near boxes). -/
+theorem kinDeg_of_confined (upd : Option (Report → Bool)) (c : Pos) (reference : Option Pos) (H : History)
+    (h : Confined c reference H) : KinDeg upd reference H := by
+  have near : ∀ (lat' lon' : ℚ) (y : Report × Truth), |lat' - y.2.lat| ≤ 1 / 25 → |lon' - y.2.lon| ≤ 1 / 25 →
+      NearDeg lat' lon' y := by
+    intro lat' lon' y h1 h2
+    unfold NearDeg
+    cases y.1.kind <;> simp only
+    · have := dlon_ge y.2.i (rlat 17 y.2.i y.2.lat)
+      exact ⟨by linarith, 0, by simp only [Int.cast_zero, mul_zero, add_zero]; linarith⟩
+    · have := dlon_ge y.2.i (rlat 19 y.2.i y.2.lat)
+      exact ⟨by linarith, 0, by simp only [Int.cast_zero, mul_zero, add_zero]; linarith⟩
+  have tri : ∀ a b m : ℚ, |a - m| ≤ 1 / 50 → |b - m| ≤ 1 / 50 → |a - b| ≤ 1 / 25 := by
+    intro a b m h1 h2
+    rw [abs_le] at h1 h2 ⊢
+    constructor <;> linarith [h1.1, h1.2, h2.1, h2.2]
+  refine ⟨(List.pairwise_of_forall (fun _ _ => trivial)).imp_of_mem ?_, ?_⟩
+  · intro x y hx hy _
+    have hl := tri _ _ _ (h.1 x hx).1 (h.1 y hy).1
+    have hn := tri _ _ _ (h.1 x hx).2 (h.1 y hy).2
+    refine ⟨fun _ => ⟨fun _ _ _ _ _ => ⟨le_trans hl (by norm_num), fun _ => ⟨0, ?_⟩⟩,
+      fun _ _ => near _ _ y hl hn⟩, fun _ _ _ _ _ => near _ _ y hl hn⟩
+    simp only [Int.cast_zero, mul_zero, add_zero]
+    have h1 : (1 : ℚ) ≤ (NL (rlat 17 y.2.i y.2.lat) : ℚ) := by exact_mod_cast NL_ge_1 _
+    have h2 : (NL (rlat 17 y.2.i y.2.lat) : ℚ) ≤ 59 := by exact_mod_cast NL_le_59 _
+    calc (NL (rlat 17 y.2.i y.2.lat) : ℚ) * ((NL (rlat 17 y.2.i y.2.lat) : ℚ) - 1) * |x.2.lon - y.2.lon|
+        ≤ 3422 * (1 / 25) := mul_le_mul (by nlinarith) hn (abs_nonneg _) (by norm_num)
+      _ ≤ 144 := by norm_num
+  · intro y hy _ rf hrf
+    exact near _ _ y (tri _ _ _ (h.2 rf hrf).1 (h.1 y hy).1) (tri _ _ _ (h.2 rf hrf).2 (h.1 y hy).2)
+
 /-! ### the defect that was repaired, and interference through `update_reference` -/
 
 /-- a taxicab over-estimate of the great-circle distance (km) for points at latitudes ≥ 69°:
@@ -746,6 +810,60 @@ theorem surface_stale_witness :
     (decodePositions Gates.source distHigh none (some ⟨71, -90⟩) staleHistory)[3]?
       = some (some ⟨137244015 / 1933312, -90⟩) := by
   refine ⟨by decide +kernel, by decide +kernel, by decide +kernel, by decide +kernel, by decide +kernel⟩
+
+/-- **Outside `Kin` a wrong position IS attached** (why the hypothesis on recorded time stamps is needed, and
+    what "locally swapped time stamps" must mean).  An aircraft sends an even report at 0 s and an odd one at
+    0.5 s from (70.98671°, −94.99744°), is not heard for 500 s while it flies 5° of longitude east (181 km;
+    704 kt here — any lower speed will do with a longer silence), and sends an odd report at 500.5 s.  The receiver
+    EXCHANGES the time stamps of the two neighbouring odd reports (500 s apart).  Every report carries the
+    encoding of its true position, but the third one — encoded at (70.98671°, −89.99744°), stamped 0.5 s — is
+    paired with the even report stamped 0 s: recorded difference 0.5 s < 10 s, true positions 5° apart, pair box
+    violated, `Kin` false.  The decoder attaches longitude 170.0026° to it: 260° (3228 km) off, and there is
+    no last position for the 50 km gate to compare with.  The real code does the same
+    (`corpus/C06/disorder_outside_kin.txt`, replayed on every run; with the truths given the harness oracle
+    reports `far`, 3 228 386 m).  The harness only exchanges stamps / swaps deliveries of neighbours less
+    than 1.5 s apart, which keeps `Kin` at 700 kt. -/
+def disorderHistory : History := [
+  ({ ts := 0, addr := 1, kind := .airborne, msg := ⟨.even, 108936, 129269⟩ },
+    ⟨0, 304885543845 / 4294967296, -408010903220 / 4294967296⟩),
+  ({ ts := 512512 / 1024, addr := 1, kind := .airborne, msg := ⟨.odd, 83091, 32785⟩ },
+    ⟨1, 304885586795 / 4294967296, -408010817321 / 4294967296⟩),
+  ({ ts := 512 / 1024, addr := 1, kind := .airborne, msg := ⟨.odd, 83091, 65553⟩ },
+    ⟨1, 304885586795 / 4294967296, -386536066740 / 4294967296⟩)]
+
+theorem disorder_outside_kin :
+    EncodesAll disorderHistory ∧ ¬ Kin none none disorderHistory ∧
+    (decodePositions Gates.source distHigh none none (disorderHistory.map Prod.fst))[2]?
+      = some (some ⟨68619735 / 966656, 5570645 / 32768⟩) ∧
+    latticeOf (({ ts := 512 / 1024, addr := 1, kind := .airborne, msg := ⟨.odd, 83091, 65553⟩ } : Report),
+      (⟨1, 304885586795 / 4294967296, -386536066740 / 4294967296⟩ : Truth))
+      = ⟨68619735 / 966656, -2949035 / 32768⟩ := by
+  refine ⟨?_, ?_, ?_, ?_⟩
+  rotate_left 2
+  · decide +kernel
+  · decide +kernel
+  · intro x hx
+    simp only [disorderHistory, List.mem_cons, List.not_mem_nil, or_false] at hx
+    rcases hx with rfl | rfl | rfl <;>
+      exact ⟨by decide, by constructor <;> norm_num, by decide +kernel⟩
+  · intro hk
+    have h := hk.1
+    simp only [disorderHistory, List.pairwise_cons] at h
+    have h02 := h.1 _ (List.mem_cons_of_mem _ List.mem_cons_self)
+    have hp := (h02.1 rfl).1 rfl rfl (by decide) (by norm_num) (by norm_num)
+    have hn : NL (rlat 17 0 (304885543845 / 4294967296)) = 19 := by decide +kernel
+    have hn' : NL (rlat 17 1 (304885586795 / 4294967296)) = 19 := by decide +kernel
+    obtain ⟨k, hk⟩ := hp.2 (by simp only [hn, hn'])
+    simp only [hn'] at hk
+    have hb : |(-408010903220 / 4294967296 : ℚ) + 360 * k - -386536066740 / 4294967296| ≤ 144 / 342 := by
+      rw [le_div_iff₀ (by norm_num)]
+      linarith [hk]
+    rw [abs_le] at hb
+    have h1 : (0 : ℚ) < k := by linarith [hb.1]
+    have h2 : (k : ℚ) < 1 := by linarith [hb.2]
+    have h1' : (0 : ℤ) < k := by exact_mod_cast h1
+    have h2' : k < (1 : ℤ) := by exact_mod_cast h2
+    omega
 
 /-- **With an `update_reference` callback the receiver reference is shared state: interference is possible by
     design.**  Aircraft 1 sends one surface report next to the receiver (71°, −90°); alone it is decoded
@@ -827,5 +945,88 @@ example :
       = [none, some ⟨48156435 / 966656, 3688425 / 606208⟩] ∧
     decodePositions Gates.source distHigh none none [o 5, e] = [none, none] := by
   refine ⟨by decide +kernel, by decide +kernel, by decide +kernel⟩
+
+/-- a history on which EVERY branch attaches a position: an aircraft near (70.987°, −94.998°), receiver at
+    (71°, −95°).  Report 0 even airborne; 1 odd airborne 0.42 s later (PAIR branch); 2 odd airborne at 12 s —
+    the even report is then 12 s old (REFERENCE branch, last position 11.6 s old); 3 odd surface at 100 s
+    (SURFACE, LAST POSITION, 88 s old); 4 even surface at 400 s — the last position is then 300 s old
+    (SURFACE, RECEIVER REFERENCE).  `corpus/C06/kin_example.txt`: the real code attaches the same positions. -/
+def branchHistory : History := [
+  ({ ts := 0, addr := 1, kind := .airborne, msg := ⟨.even, 108936, 129269⟩ },
+    ⟨0, 304885543845 / 4294967296, -408010903220 / 4294967296⟩),
+  ({ ts := 430 / 1024, addr := 1, kind := .airborne, msg := ⟨.odd, 83091, 32785⟩ },
+    ⟨1, 304885586795 / 4294967296, -408010817321 / 4294967296⟩),
+  ({ ts := 12, addr := 1, kind := .airborne, msg := ⟨.odd, 83097, 32788⟩ },
+    ⟨1, 304886832335 / 4294967296, -408008755736 / 4294967296⟩),
+  ({ ts := 100, addr := 1, kind := .surface, msg := ⟨.odd, 70253, 83⟩ },
+    ⟨1, 304887261832 / 4294967296, -408008326240 / 4294967296⟩),
+  ({ ts := 400, addr := 1, kind := .surface, msg := ⟨.even, 42563, 123880⟩ },
+    ⟨0, 304887261832 / 4294967296, -408007896743 / 4294967296⟩)]
+
+/-- the entry that report `k` of `branchHistory` finds -/
+def branchEntry (k : ℕ) (r : Report) : AircraftState :=
+  entryOf (runState Gates.source distHigh none (Cache.empty, some ⟨71, -95⟩)
+    ((branchHistory.take k).map Prod.fst)).1 r
+
+/-- **All hypotheses of `sound` hold together and every branch attaches a position** (audit: the reference
+    branch and both surface branches, not only the pair branch).  `branchHistory` satisfies `EncodesAll` and —
+    for every callback — `KinDeg`, hence `Kin`; the decoder attaches a position to reports 1–4, each through a
+    different branch: pair; reference (the pair branch gives nothing); surface against the last position;
+    surface against the receiver reference (the last position gives nothing). -/
+example :
+    EncodesAll branchHistory ∧
+    (∀ upd, KinDeg upd (some ⟨71, -95⟩) branchHistory ∧ Kin upd (some ⟨71, -95⟩) branchHistory) ∧
+    decodePositions Gates.source distHigh none (some ⟨71, -95⟩) (branchHistory.map Prod.fst)
+      = [none, some ⟨68619735 / 966656, -3112875 / 32768⟩, some ⟨68620005 / 966656, -778215 / 8192⟩,
+         some ⟨274480425 / 3866624, -12451425 / 131072⟩, some ⟨18608841 / 262144, -14786055 / 155648⟩] ∧
+    (let r : Report := { ts := 430 / 1024, addr := 1, kind := .airborne, msg := ⟨.odd, 83091, 32785⟩ }
+     pairDecode (branchEntry 1 r) r.ts r.msg = some ⟨68619735 / 966656, -3112875 / 32768⟩) ∧
+    (let r : Report := { ts := 12, addr := 1, kind := .airborne, msg := ⟨.odd, 83097, 32788⟩ }
+     pairDecode (branchEntry 2 r) r.ts r.msg = none ∧
+     refDecode (branchEntry 2 r) r.ts r.msg = some ⟨68620005 / 966656, -778215 / 8192⟩) ∧
+    (let r : Report := { ts := 100, addr := 1, kind := .surface, msg := ⟨.odd, 70253, 83⟩ }
+     surfLast distHigh (branchEntry 3 r) r.ts r.msg = some ⟨274480425 / 3866624, -12451425 / 131072⟩) ∧
+    (let r : Report := { ts := 400, addr := 1, kind := .surface, msg := ⟨.even, 42563, 123880⟩ }
+     surfLast distHigh (branchEntry 4 r) r.ts r.msg = none) := by
+  have henc : EncodesAll branchHistory := by
+    intro x hx
+    simp only [branchHistory, List.mem_cons, List.not_mem_nil, or_false] at hx
+    rcases hx with rfl | rfl | rfl | rfl | rfl <;>
+      exact ⟨by decide, by constructor <;> norm_num, by decide +kernel⟩
+  have hconf : Confined ⟨304885543845 / 4294967296, -408010903220 / 4294967296⟩ (some ⟨71, -95⟩)
+      branchHistory := by
+    constructor
+    · intro x hx
+      simp only [branchHistory, List.mem_cons, List.not_mem_nil, or_false] at hx
+      rcases hx with rfl | rfl | rfl | rfl | rfl <;>
+        (constructor <;> rw [abs_le] <;> constructor <;> norm_num)
+    · intro rf hrf
+      cases hrf
+      constructor <;> rw [abs_le] <;> constructor <;> norm_num
+  refine ⟨henc, fun upd => ?_, by decide +kernel, by decide +kernel, by decide +kernel, by decide +kernel,
+    by decide +kernel⟩
+  have hk := kinDeg_of_confined upd _ _ _ hconf
+  exact ⟨hk, kin_of_deg upd _ _ henc hk⟩
+
+/-- … and `sound` then says what it should about it: the position attached to report 2 (reference branch) is
+    the lattice point of report 2's own true position -/
+example : Recovered branchHistory[2].1 branchHistory[2].2 ⟨68620005 / 966656, -778215 / 8192⟩ := by
+  have henc : EncodesAll branchHistory := by
+    intro x hx
+    simp only [branchHistory, List.mem_cons, List.not_mem_nil, or_false] at hx
+    rcases hx with rfl | rfl | rfl | rfl | rfl <;>
+      exact ⟨by decide, by constructor <;> norm_num, by decide +kernel⟩
+  have hconf : Confined ⟨304885543845 / 4294967296, -408010903220 / 4294967296⟩ (some ⟨71, -95⟩)
+      branchHistory := by
+    constructor
+    · intro x hx
+      simp only [branchHistory, List.mem_cons, List.not_mem_nil, or_false] at hx
+      rcases hx with rfl | rfl | rfl | rfl | rfl <;>
+        (constructor <;> rw [abs_le] <;> constructor <;> norm_num)
+    · intro rf hrf
+      cases hrf
+      constructor <;> rw [abs_le] <;> constructor <;> norm_num
+  exact sound_deg distHigh none (some ⟨71, -95⟩) branchHistory henc (kinDeg_of_confined none _ _ _ hconf)
+    2 _ _ rfl (by decide +kernel)
 
 end Rs1090.Props.C06
